@@ -13,3 +13,11 @@ pub fn io_err(kind: IoKind) -> (r: IoError)
 {
     IoError { kind }
 }
+
+// AtomicBool::swap (R4, SEQ): returns the previous value, stores the new one
+pub trait VxAtomicBool { fn vx_swap(&mut self, v: bool) -> (r: bool); }
+impl VxAtomicBool for bool {
+    fn vx_swap(&mut self, v: bool) -> (r: bool)
+        ensures r == *old(self), *final(self) == v
+    { let o = *self; *self = v; o }
+}
